@@ -14,10 +14,10 @@ for d in sorted(glob.glob('/verif/seeded/C*')):
     meta = json.load(open(f'{d}/meta.json'))
     r = res.get(sid, ('', 'not run', ''))
     sig = r[2].split(' | ')[0] if r[2] else ''
-    rows.append(f"| {sid} | {meta['summary'][:150].replace('|','/')} | {meta['needs_to_manifest'][:170].replace('|','/')} | {r[1]} | `{sig}` |")
+    rows.append(f"| {sid} | {meta['summary'][:150].replace('|','/')} | {meta['needs_to_manifest'][:170].replace('|','/')} | {r[0]} | {r[1]} | `{sig}` |")
 out = ["# Seeded changes (independent sub-agents) and which check catches them", "",
-       "Each change was produced by a fresh sub-agent that saw only the property text and its own scratch worktree, then confirmed by `tools/confirm_seeded.py` (applies, builds with and without `async`, repository suite green, demo fails with / passes without). `Result` is the verdict of `./check <property> quick` run against a scratch worktree with the patch applied (`tools/run_seeded.py`).", "",
-       "| Id | Change | Needs | Result (quick) | First signature |", "|---|---|---|---|---|"] + rows
+       "Each change was produced by a fresh sub-agent that saw only the property text and its own scratch worktree, then confirmed by `tools/confirm_seeded.py` (applies, builds with and without `async`, repository suite green, demo fails with / passes without). `Check` is the property whose quick check was run (the one the change was written against, or the one named in `checked_with` when the change needs another property's quantifier); `Result` is the verdict of `./check <property> quick` run against a scratch worktree with the patch applied (`tools/run_seeded.py`).", "",
+       "| Id | Change | Needs | Check | Result (quick) | First signature |", "|---|---|---|---|---|---|"] + rows
 # hand mutants
 out += ["", "## Hand-made mutants (`/verif/mutants/*.diff`)", "", "| Mutant | Check: verdict |", "|---|---|"]
 cur = None; acc = {}
